@@ -182,3 +182,88 @@ func stmtOf(x *ctx.JSNode) *ctx.JSNode {
 	}
 	return x
 }
+
+// ruleC03Wakers: a function placed on a wait queue is called by whoever makes the operation possible — a
+// sender, a receiver, or close — in THAT goroutine. It may record, deregister and schedule, but it must not
+// throw: the panic of "send on closed channel" belongs to the parked sender and is raised when it resumes
+// (in $blk). A throw inside the entry lands in the closer and leaves the remaining waiters asleep.
+func ruleC03Wakers(c *ctx.Ctx, r *core.Reporter) {
+	r.Begin("C03.wakers", "F-WHO", "functions placed on $sendQueue/$recvQueue never throw (they run in the waking goroutine); a sender woken by close learns it through the argument of its entry and panics in its own $blk", 4)
+	if !needPrelude(c, r) {
+		return
+	}
+	n := 0
+	for _, fnName := range []string{"$send", "$recv", "$select"} {
+		fn := c.PreludeFunc(fnName)
+		if fn == nil {
+			r.Undecided("entry:"+fnName, "compiler/prelude/goroutines.js", fnName+" not found")
+			continue
+		}
+		inits := localInits(fn)
+		fn.Walk(func(x *ctx.JSNode) bool {
+			for _, q := range []string{"$sendQueue", "$recvQueue"} {
+				if !isQueueCall(x, q, "push") || len(x.L("arguments")) != 1 {
+					continue
+				}
+				arg := x.L("arguments")[0]
+				entry := arg
+				if arg.Is("Identifier") {
+					for _, in := range inits[arg.IdentName()] {
+						if in.IsFunc() && containsNode(x.EnclosingFunc(), in) {
+							entry = in
+						}
+					}
+				}
+				if !entry.IsFunc() {
+					r.Undecided(fmt.Sprintf("entry:%s:%s", fnName, q), x.Pos(), "queue entry is not a function literal")
+					continue
+				}
+				n++
+				throws := 0
+				entry.Walk(func(y *ctx.JSNode) bool {
+					if y.Is("ThrowStatement") || (y.Is("CallExpression") && strings.HasPrefix(y.N("callee").IdentName(), "$throw")) || (y.Is("CallExpression") && y.N("callee").IdentName() == "$panic") {
+						throws++
+					}
+					return true
+				})
+				r.Check(throws == 0, fmt.Sprintf("entry-never-throws:%s:%s#%d", fnName, q, n), entry.Pos(), fmt.Sprintf("the entry %s puts on %s records and schedules but does not throw (throwing statements: %d)", fnName, q, throws))
+				if q == "$sendQueue" {
+					// the entry takes the "closed" flag, and the frame's $blk throws under it
+					ps := funcParams(entry)
+					flagStored := ""
+					if len(ps) == 1 {
+						entry.Walk(func(y *ctx.JSNode) bool {
+							if y.Is("AssignmentExpression") && y.N("right").IdentName() == ps[0] {
+								flagStored = squash(y.N("left").Src())
+							}
+							return true
+						})
+					}
+					blkThrows := false
+					fn.Walk(func(y *ctx.JSNode) bool {
+						if (y.Is("Property") || y.Is("MethodDefinition")) && y.N("key") != nil && y.N("key").IdentName() == "$blk" {
+							y.Walk(func(z *ctx.JSNode) bool {
+								if z.Is("IfStatement") && flagStored != "" {
+									t := squash(z.N("test").Src())
+									leaf := flagStored
+									if i := strings.LastIndex(leaf, "."); i >= 0 {
+										leaf = leaf[i+1:]
+									}
+									if strings.HasSuffix(t, leaf) && strings.Contains(squash(z.N("consequent").Src()), "$throwRuntimeError(") {
+										blkThrows = true
+									}
+								}
+								return true
+							})
+						}
+						return true
+					})
+					r.Check(len(ps) == 1 && flagStored != "" && blkThrows, fmt.Sprintf("closed-sender-panics-on-resume:%s#%d", fnName, n), entry.Pos(), fmt.Sprintf("a parked sender's entry stores its argument (closed) in %q and the goroutine's $blk throws \"send on closed channel\" under it", flagStored))
+				}
+			}
+			return true
+		})
+	}
+	r.Check(n >= 4, "entries", "compiler/prelude/goroutines.js", fmt.Sprintf("%d wait-queue entries examined", n))
+}
+
